@@ -292,7 +292,8 @@ def draw_property_layers(
 
             # Normalize colors
             norm = Normalize(vmin=vmin, vmax=vmax)
-            colors = data.ravel()  # flatten data to 1D array
+            # flatten row by row, the order in which _get_hexmesh yields the hexagons
+            colors = data.T.ravel()
 
             if "color" in portrayal:
                 normalized_colors = np.clip(norm(colors), 0, 1)
